@@ -28,7 +28,9 @@ REQUIRED = ['codec_roundtrip', 'to_from_dict_roundtrip', 'codec_rejects', 'codec
             'codec_reserved_key_witness', 'codec_reserved_callable_witness', 'codec_save_or_faithful_witness',
             'blt_roundtrip', 'blt_error_kinds', 'blt_parse_total_partial', 'blt_parse_total_witness_invalid_operation',
             'blt_parse_total_witness_value_error', 'blt_parse_total_witness_index_error', 'blt_zero_index_alias_witness',
-            'blt_parse_total_witness', 'blt_fraction_weight_witness']
+            'blt_parse_total_witness', 'blt_fraction_weight_witness',
+            'Stv.stv_roundtrip', 'Stv.stv_error_kinds', 'Stv.stv_nick_end_witness', 'Stv.stv_empty_ballot_witness',
+            'Stv.stv_roundtrip_unconditional_witness']
 REQUIRED_COUNTERS = ['codec_frac', 'codec_dec', 'codec_tuple', 'codec_fset', 'codec_sdict', 'codec_gdict', 'codec_obj', 'codec_callable',
                      'codec_depth_4', 'unrepresentable', 'hazard_bare_set', 'hazard_reserved_key',
                      'class_rt', 'class_bad', 'cls_depth_4', 'feat_fraction', 'feat_decimal', 'feat_callable_by_name', 'feat_dict_keyed',
@@ -36,7 +38,7 @@ REQUIRED_COUNTERS = ['codec_frac', 'codec_dec', 'codec_tuple', 'codec_fset', 'co
                      'blt_weight_dec', 'blt_weight_frac', 'blt_person', 'blt_strname', 'blt_empty_ballot',
                      'blt_text', 'mut_truncate_chars', 'mut_truncate_lines', 'mut_junk_token', 'mut_index_out_of_range',
                      'mut_zero_inside', 'mut_handmade',
-                     'stv_rt', 'stv_blt_mode', 'stv_own_mode', 'stv_duplicate_initials', 'stv_withdrawn', 'stv_weight_frac', 'stv_weight_dec',
+                     'stv_rt', 'stv_blt_mode', 'stv_own_mode', 'stv_duplicate_initials', 'stv_many_candidates', 'stv_withdrawn', 'stv_weight_frac', 'stv_weight_dec',
                      'stv_text', 'mut_header_junk']
 RULE = ('codec: random value trees of depth <= 4 over atoms (None/bool/int up to 10^30/float/str incl. unicode and identifier-like), '
         'Fraction, Decimal, list, tuple, frozenset, str-keyed and general dicts, objects (Person, PoliticalParty, NoneOfTheAbove, '
@@ -58,10 +60,13 @@ NOT_VERIFIED = ['lexing of BLT/STV text (strip, split, "#" comments, quotes, str
                 'str.isidentifier is modelled for ASCII; str(Decimal)/Decimal(str) are the identity on the carried text',
                 'Python equality across numeric types inside sets / dict keys (1 == True == 1.0) — the generator keeps such keys apart',
                 'frozenset iteration order (compared order-free)',
-                'the STV file format (io/stv.py) is not modelled in Lean: round trip and malformed-text behaviour are checked by the oracle only']
+                'STV: only the candidate / ballot section (nicknames, candidate lines, ballots=, unordered ballot lines, end) is modelled, at token '
+                'level; the system header (_dump_system / _create_system), the ordered format and name_to_initials (regex, str.lower) are not — '
+                'candidates come with their initials; math.log in the ordinal nickname length is modelled as the least k with 26^k >= n']
 UNPROVED = ['blt_parse_total (false of the current parser: witnesses proved; blt_parse_total_partial + blt_error_kinds hold)',
             'codec_save_or_faithful (false of the current codec: bare sets, reserved keys; witnesses proved)',
-            'stv_roundtrip, stv_parse_total (STV format not modelled)']
+            'stv_parse_total (false of the current reader: ValueError / ZeroDivisionError / TypeError ...; Stv.stv_error_kinds holds for the section)',
+            'stv_roundtrip for the system header (title, seats): oracle only']
 EXHAUSTIVE = {'thorough': True}
 
 # ------------------------------------------------------------------------------------------------ guards
@@ -651,11 +656,76 @@ def _oracle_stv_rt(case, obs):
     return IO.diff_docs(_expected_stv(case), obs['loaded'], '')
 
 
+def _model_stv_rt(case):
+    if case.get('sys') is None:
+        return None                      # BLT mode: the content is the BLT model's business (blt_rt)
+    if _haz_stv(case) & {'name_hash', 'name_ws_edge', 'name_blank', 'name_no_initials'}:
+        return None                      # the written candidate line does not lex back to (nick, name): outside the token model
+    d = case['doc']
+    return {'op': 'stv_dump', 'doc': {'cands': [[n, bool(w), IO.stv_initials(n)] for n, w, _ in d['cands']],
+                                      'ballots': [[idx, IO.stv_weight_model(w)] for idx, w in d['ballots']]}}
+
+
+def _strip_trailing_blank(lines):
+    lines = list(lines)
+    while lines and lines[-1] is None:
+        lines.pop()
+    return lines
+
+
+def _stv_section(loaded):
+    if _is_err(loaded):
+        return loaded
+    return {'cands': loaded['cands'], 'ballots': loaded['ballots']}
+
+
+def _compare_stv_rt(case, iobs, mobs):
+    if iobs['dump'] != 'ok':
+        return f"dump: impl raises {iobs['dump']['exc']}"
+    tk = IO.stv_tokenise(iobs['text'])
+    if tk is None:
+        return None
+    hdr = [h for h in tk[0] if h is not None and not (isinstance(h, dict) and 'other' in h)]
+    if hdr != mobs['hdr']:
+        return f"header lines: impl={json.dumps(hdr)[:300]} model={json.dumps(mobs['hdr'])[:300]}"
+    if _strip_trailing_blank(tk[1]) != mobs['votes']:
+        return f"ballot lines: impl={json.dumps(tk[1])[:300]} model={json.dumps(mobs['votes'])[:300]}"
+    return _cmp_loaded(_stv_section(iobs['loaded']), mobs['loaded'])
+
+
+def _model_stv_text(case):
+    tk = IO.stv_tokenise(case['text'])
+    if tk is None or not IO.stv_system_ok(tk[0]):
+        return None
+    return {'op': 'stv_load', 'hdr': tk[0], 'votes': tk[1]}
+
+
+def _compare_stv_text(case, iobs, mobs):
+    ml = mobs['loaded']
+    if _is_err(ml) and ml['err'] == 'unmodelled':
+        return None
+    return _cmp_loaded(_stv_section(iobs['loaded']), ml)
+
+
 STV_HAZ_NAMES = {'name_hash': ['Al #1', 'C# Major'], 'name_ws_edge': [' Al', 'Bo ', '\tCy'], 'name_no_initials': ['???', '-', '...'], 'name_blank': ['', ' '],
                  'nick_end': ['Ed N. Dav']}
 
 
+def _gen_stv_many(rng):
+    """duplicate initials with 25-30 and 677 candidates: ordinal nicknames of one, two and three letters"""
+    for n in (25, 26, 27, 30, 677):
+        cands = [[f'Al B{chr(97 + i % 26)}{i}', False, 'person'] for i in range(n)]
+        ballots = [[[n - 1, 0, n // 2], {'k': 'int', 'v': '2'}], [[25 % n], {'k': 'int', 'v': '1'}], [[n - 3, n - 2], {'k': 'frac', 'v': '1/2'}]]
+        doc = {'seats': 2, 'cands': cands, 'ballots': ballots, 'title': 'Many'}
+        c = {'op': 'stv_rt', 'doc': doc, 'sys': {'quota': 'droop', 'mandatory': False, 'random': None, 'seats': 'fixed', 'wrap': True},
+             '_tags': ['stv_many_candidates']}
+        _tag_doc(c, 'stv')
+        c['_tags'] += ['stv_own_mode', 'stv_duplicate_initials']
+        yield c
+
+
 def _gen_stv_rt(rng, n):
+    yield from _gen_stv_many(rng)
     plain = [x for x in IO.NAMES_PLAIN + IO.NAMES_RICH if '#' not in x and x == x.strip() and x and _initials(x)]
     for k in range(n):
         r = rng.random()
@@ -772,8 +842,10 @@ IMPL = {'codec': _impl_codec, 'class_rt': _impl_class, 'blt_rt': _impl_blt_rt, '
         'stv_rt': _impl_stv_rt, 'stv_text': _impl_stv_text}
 ORACLE = {'codec': _oracle_codec, 'class_rt': _oracle_class, 'blt_rt': _oracle_rt, 'blt_text': _oracle_blt_text,
           'stv_rt': _oracle_stv_rt, 'stv_text': _oracle_stv_text}
-MODEL = {'codec': _model_codec, 'class_rt': _model_class, 'blt_rt': _model_blt_rt, 'blt_text': _model_blt_text}
-COMPARE = {'codec': _compare_codec, 'class_rt': _compare_class, 'blt_rt': _compare_blt_rt, 'blt_text': _compare_blt_text}
+MODEL = {'codec': _model_codec, 'class_rt': _model_class, 'blt_rt': _model_blt_rt, 'blt_text': _model_blt_text,
+         'stv_rt': _model_stv_rt, 'stv_text': _model_stv_text}
+COMPARE = {'codec': _compare_codec, 'class_rt': _compare_class, 'blt_rt': _compare_blt_rt, 'blt_text': _compare_blt_text,
+           'stv_rt': _compare_stv_rt, 'stv_text': _compare_stv_text}
 HAZ = {'codec': _haz_codec, 'class_rt': _haz_class, 'blt_rt': _haz_blt, 'stv_rt': _haz_stv}
 
 
@@ -972,9 +1044,9 @@ LEVEL_TEXT = ('The dict codec of persist.py (serialize_value / deserialize_value
               'to_dict/from_dict), saving fails exactly on values containing something without a dict spelling (codec_rejects / codec_save_ok_iff), '
               'every well-formed BLT document reloads unchanged (blt_roundtrip: seats, names, any withdrawn subset, weights, title), the BLT parser '
               'raises only ParseError or one of three named foreign exceptions (blt_error_kinds) and only ParseError/IndexError on lexically sane '
-              'text (blt_parse_total_partial). The full statements are false of the current tree and their negations are proved on concrete '
+              'text (blt_parse_total_partial); the candidate/ballot section of an STV file round-trips under explicit conditions on nicknames and ballots (Stv.stv_roundtrip). The full statements are false of the current tree and their negations are proved on concrete '
               'witnesses (bare set / reserved key in the codec; InvalidOperation, ValueError, IndexError and a silent index alias in the BLT parser). '
-              'All 109 classes carrying to_dict, the STV format and text lexing are covered by the differential correspondence and a direct '
+              'All 109 classes carrying to_dict, the system header of the STV format and text lexing are covered by the differential correspondence and a direct '
               'round-trip / outcome / exception-type oracle on every run.')
 LEVEL_NOTE = ('Trusted: Lean kernel + propext/Classical.choice/Quot.sound; the correspondence harness (generators, tokeniser, canonicalisation); '
               'constructor reflection, text lexing and the STV format are validated by testing only (bounded by the generator), not proved.')
